@@ -1,6 +1,7 @@
 //! zv — harness front door: translator (`extract`), tree dump (`dump`), real-library runs (`gen`, ...).
 mod dump;
 mod extract_restr;
+mod extract_sites;
 mod extract_tables;
 mod obs;
 mod run;
@@ -29,6 +30,9 @@ fn cmd_extract(repo: &str, out: &str) -> ExitCode {
     if write_if_changed(&out.join("Restrictions.lean"), &extract_restr::extract(&helpers)) {
         changed.push("Restrictions.lean");
     }
+    if write_if_changed(&out.join("Sites.lean"), &extract_sites::extract(repo)) {
+        changed.push("Sites.lean");
+    }
     if write_if_changed(&out.join("Tables.lean"), &extract_tables::extract(repo)) {
         changed.push("Tables.lean");
     }
@@ -42,6 +46,22 @@ fn main() -> ExitCode {
         Some("extract") if args.len() == 4 => cmd_extract(&args[2], &args[3]),
         Some("gen") if args.len() == 5 => {
             println!("{}", run::cmd_gen(&args[2], &args[3], &args[4]));
+            ExitCode::SUCCESS
+        }
+        Some("parseonly") if args.len() == 3 => {
+            let src = fs::read_to_string(&args[2]).unwrap_or_default();
+            match roxmltree::Document::parse(&src) {
+                Ok(d) => println!("parsed {} nodes", d.descendants().count()),
+                Err(e) => println!("parse-error {e}"),
+            }
+            ExitCode::SUCCESS
+        }
+        Some("det") if args.len() == 5 => {
+            print!("{}", run::cmd_det(&args[2], &args[3], args[4].parse().unwrap_or(1)));
+            ExitCode::SUCCESS
+        }
+        Some("sink") if args.len() == 6 => {
+            print!("{}", run::cmd_sink(&args[2], &args[3], args[4].parse().unwrap_or(2000), args[5].parse().unwrap_or(1)));
             ExitCode::SUCCESS
         }
         Some("obs") if args.len() == 3 => {
